@@ -496,6 +496,16 @@ def monitor_kinds(c):
     c.canary("canary_always_records", z3.And(z3.Not(armed), z3.BoolVal(len(seen) > 0)))
 
 
+# every monitor is a Hook: dropping a trainer relies on the finalizer of each (possibly re-registered) hook being bound to the
+# handles it currently holds, and observation "exactly when enabled" on the StateHook firing predicate - the C16 lifecycle
+# contracts are therefore obligations of this property too
+from pyvc.harness import REGISTRY as _REG  # noqa: E402
+from . import c16_hooks as _c16  # noqa: E402,F401
+
+for _cd in list(_REG.get("C16", [])):
+    if _cd.name in ("Hook.lifecycle", "Hook.flags_reconfigured", "StateHook.forward") and not any(x.name == _cd.name for x in _REG.get(P, [])):
+        contract(P, _cd.name, list(_cd.targets), min_obligations=_cd.min_obligations)(_cd.fn)
+
 MUTANTS = [
     dict(file=PO, func="MonitorPool.del_observed", old="        if name in self.observed_:\n            del self.observed_[name]", new="            if name in self.observed_:\n                del self.observed_[name]", contracts=["CellTrainer.lifecycle"], name="seed C15f: a cell without monitors is never forgotten by the pool"),
     dict(file=PO, func="MonitorPool.add_monitor", old="            if unique:\n                del self.monitors_[observed][name]", new="            if unique:\n                monitor.deregister()\n                del self.monitors_[observed][name]", contracts=["CellTrainer.lifecycle"], name="seed C15: unique re-add deregisters the replaced monitor although another cell pools it"),
